@@ -27,10 +27,10 @@ type rinst struct {
 }
 
 type runner struct {
-	out   *bufio.Writer
-	seen  map[string]bool
-	pool  *Pool
-	stats struct{ cases, ops, exec, events int }
+	out     *bufio.Writer
+	seen    map[string]bool
+	pool    *Pool
+	stats   struct{ cases, ops, exec, events int }
 	nodedup bool
 }
 
@@ -108,7 +108,13 @@ func (in *rinst) facade(op *Op) facade {
 	if op.Res {
 		n--
 	}
-	for i := 0; i < n; i++ {
+	i0 := 0
+	if par, ok := in.objs[op.Parent]; ok && op.Parent != "" && par.p != nil && len(op.Chain) > 0 {
+		// made FROM a stored object: only the last chain element is new
+		f.p = par.p
+		i0 = len(op.Chain) - 1
+	}
+	for i := i0; i < n; i++ {
 		c := op.Chain[i]
 		if f.p == nil {
 			f.p = in.r.Prefix(c.P, in.e.mws(c.Mws)...)
